@@ -430,29 +430,12 @@ class ProductState:
             List of states to apply the operators to, the tensoring order in operators
             must follow the order of the states in this list
         """
+        # A channel maps pure states to mixed states in general, the sum over
+        # the Kraus operators has to be carried out on the density matrix
         if self.expansion_level == ExpansionLevel.Vector:
-            # Get the state and reshape it
-            shape = [s.dimensions for s in self.state_objs]
-            shape.append(1)
-            ps = self.state.reshape(shape)
+            self.expand()
 
-            # Reshape the operators
-            op_shape = [s.dimensions for s in states] * 2
-            operators = [op.reshape(op_shape) for op in operators]
-
-            # Generate einsum
-            einsum = ESC.apply_operator_vector(self.state_objs, list(states))
-
-            # Apply all operators
-            resulting_state = jnp.zeros_like(ps)
-
-            for op in operators:
-                resulting_state += jnp.einsum(einsum, op, ps)
-
-            # Reshape the resulting state back into vector and store it
-            self.state = resulting_state.reshape(-1, 1)
-
-        elif self.expansion_level == ExpansionLevel.Matrix:
+        if self.expansion_level == ExpansionLevel.Matrix:
             # Get the state and reshape it
             ps = self.state.reshape([s.dimensions for s in self.state_objs] * 2)
 
